@@ -53,7 +53,7 @@ def observe(sp, xml, binding=env.BINDING_POST, outstanding=None, conv_info=None,
     obs = {'verdict': 'reject', 'exc': None}
     try:
         if encoded is None:
-            encoded = sb.b64(xml) if binding == env.BINDING_POST else sb.deflate_b64(xml)
+            encoded = sb.deflate_b64(xml) if binding == env.BINDING_REDIRECT else sb.b64(xml)      # POST and Artifact: base64 only
         try:
             resp = sp.parse_authn_request_response(encoded, binding, outstanding, conv_info=conv_info)
         except Exception as exc:
